@@ -112,12 +112,74 @@ def replay(mod, path: str) -> int:
     return 0
 
 
+def supervise(a) -> int:
+    """Run the check in a child process and watch its heartbeat: when ONE operation on the real code makes no
+    progress for DLTYPE_VERIF_OP_TIMEOUT seconds (default 180) the child is killed and that operation is reported
+    as the failing input — every generated operation has a small documented result, so not finishing is a
+    violation of the property under test, and the check must not hang on whatever the tree under test does."""
+    import struct
+    import subprocess
+    import time
+
+    wd = framework.workdir(a.prop)
+    hb, lp = os.path.join(wd, f"heartbeat_{os.getpid()}.bin"), os.path.join(wd, f"impl_lines_{os.getpid()}.txt")
+    with open(hb, "wb") as f:
+        f.write(struct.pack("<qq", 0, 0))
+    env = dict(os.environ, DLTYPE_VERIF_CHILD="1", DLTYPE_VERIF_HEARTBEAT=hb, DLTYPE_VERIF_IMPL_LINES=lp)
+    limit = float(os.environ.get("DLTYPE_VERIF_OP_TIMEOUT", "180"))
+    p = subprocess.Popen([sys.executable, os.path.abspath(__file__), *sys.argv[1:]], env=env)
+    last, since = None, time.time()
+    while True:
+        try:
+            rc = p.wait(timeout=2)
+            for f in (hb, lp):
+                if os.path.exists(f):
+                    os.remove(f)
+            return rc if rc >= 0 else 2
+        except subprocess.TimeoutExpired:
+            pass
+        try:
+            with open(hb, "rb") as f:
+                state, idx = struct.unpack("<qq", f.read(16))
+        except Exception:  # noqa: BLE001
+            continue
+        now = time.time()
+        if state != 1 or idx != last:
+            last, since = (idx if state == 1 else None), now
+            continue
+        if now - since > limit:
+            p.kill()
+            p.wait()
+            try:
+                line = open(lp).read().split("\n")[idx]
+            except Exception:  # noqa: BLE001
+                line = None
+            seed = int(os.environ.get("VERIF_SEED", "0"))
+            what = (f"the implementation did not finish this operation within {int(limit)} s (every generated operation has a small "
+                    "documented result; the model and the reference evaluator finish it in microseconds)")
+            path = os.path.join(wd, f"replay_{a.tier}_{seed}.json")
+            framework.write_json(path, {"property": a.prop, "kind": "failing-input", "what": what, "operation": line, "impl": "did-not-finish",
+                                        "model": "", "spec": "", "seed": seed, "tier": a.tier, "repo": common.REPO,
+                                        "replay_cmd": f"./check {a.prop} --replay <this file>", "others": [], "n_findings": 1})
+            framework.write_json(os.path.join(common.EVIDENCE, f"{a.prop}.json"), {
+                "property_id": a.prop, "tier": a.tier, "seed": seed, "level": "proof",
+                "coverage": {"obligations": 0, "discharged": 0, "evaluations": idx + 1, "distinct_nontrivial": 0,
+                             "checker_cmd": f"./check {a.prop} --tier {a.tier}", "trusted_base": TRUSTED, "samples": [line],
+                             "rule": "interrupted by the supervisor: one operation on the real code did not finish", "notes": [what, repr(line)]},
+                "assumptions": [], "wall_s": round(now - since, 1), "violations": 1})
+            print(f"VIOLATION property={a.prop} replay={path}")
+            print(f"  - failing-input: {what} :: {line!r}")
+            return 1
+
+
 def main() -> int:
     ap = argparse.ArgumentParser()
     ap.add_argument("prop")
     ap.add_argument("--tier", default=os.environ.get("VERIF_TIER", "quick"), choices=["quick", "thorough"])
     ap.add_argument("--replay")
     a = ap.parse_args()
+    if not a.replay and os.environ.get("DLTYPE_VERIF_CHILD") != "1" and os.environ.get("DLTYPE_VERIF_NO_SUPERVISOR") != "1":
+        return supervise(a)
     try:
         mod = importlib.import_module(f"checks.{a.prop.lower()}")
     except ModuleNotFoundError:
